@@ -447,12 +447,14 @@ oscore_increment_sender_seq(oscore_ctx_t *ctx) {
 void
 oscore_roll_back_seq(oscore_recipient_ctx_t *ctx) {
 
+  /*
+   * A saved window always has B0 set, so 0 means nothing is saved.
+   * 0 is a valid saved sequence number, so restore both together.
+   */
   if (ctx->rollback_sliding_window != 0) {
     ctx->sliding_window = ctx->rollback_sliding_window;
-    ctx->rollback_sliding_window = 0;
-  }
-  if (ctx->rollback_last_seq != 0) {
     ctx->last_seq = ctx->rollback_last_seq;
+    ctx->rollback_sliding_window = 0;
     ctx->rollback_last_seq = 0;
   }
 }
